@@ -817,49 +817,13 @@ impl ArchiveIndex {
     }
 
     /// Write archive index to writer
-    pub fn write_to<W: Write + Seek>(&self, mut writer: W) -> ArchiveResult<()> {
-        let chunk_count = calculate_chunks(self.entries.len());
-        let block_size = CHUNK_SIZE;
-        let hash_bytes = self.footer.footer_hash_bytes;
-
-        // Write entry chunks and compute block hashes
-        let mut entry_idx = 0;
-        let mut block_hashes = Vec::with_capacity(chunk_count);
-        for chunk_idx in 0..chunk_count {
-            let mut chunk_data = vec![0u8; block_size];
-            let mut cursor = Cursor::new(&mut chunk_data);
-
-            let entries_in_chunk = if chunk_idx == chunk_count - 1 {
-                self.entries.len() - entry_idx
-            } else {
-                MAX_ENTRIES_PER_CHUNK.min(self.entries.len() - entry_idx)
-            };
-
-            for _ in 0..entries_in_chunk {
-                if entry_idx < self.entries.len() {
-                    let entry_bytes = self.entries[entry_idx].to_bytes(4, 4)?;
-                    cursor.write_all(&entry_bytes)?;
-                    entry_idx += 1;
-                }
-            }
-
-            block_hashes.push(calculate_block_hash(&chunk_data, hash_bytes));
-            writer.write_all(&chunk_data)?;
-        }
-
-        // Write table of contents: keys then block hashes
-        for key in &self.toc {
-            writer.write_all(key)?;
-        }
-
-        for block_hash in &block_hashes {
-            writer.write_all(block_hash)?;
-        }
-
-        // Write footer
-        self.footer.write(&mut writer)?;
-
-        Ok(())
+    ///
+    /// Same output as [`build`](Self::build): the record layout (key length,
+    /// offset and size widths) comes from the footer, so that indices with
+    /// truncated keys, 5-byte offsets and archive-groups (6-byte offsets) are
+    /// written the way they are parsed.
+    pub fn write_to<W: Write + Seek>(&self, writer: W) -> ArchiveResult<()> {
+        self.build(writer)
     }
 }
 
@@ -2110,6 +2074,33 @@ mod tests {
     }
 
     // Real-world data tests
+    #[test]
+    fn test_casc_format_build_keeps_record_layout() {
+        // Truncated keys with 5-byte offsets and an archive-group (6-byte
+        // offsets): the trait's build must write what the trait's parse read.
+        for (key_size, offset_bytes) in [(9u8, 5u8), (16, 6)] {
+            let mut builder = ArchiveIndexBuilder::with_config(key_size, offset_bytes, 4);
+            for i in 0..3u8 {
+                let mut key = vec![0u8; key_size as usize];
+                key[0] = i + 1;
+                builder.add_entry(key, 100 + u32::from(i), 0x1_0000_0000 + u64::from(i));
+            }
+            let mut data = Vec::new();
+            builder
+                .build(Cursor::new(&mut data))
+                .expect("Build should succeed");
+
+            let parsed =
+                <ArchiveIndex as crate::CascFormat>::parse(&data).expect("Parse should succeed");
+            let rebuilt =
+                <ArchiveIndex as crate::CascFormat>::build(&parsed).expect("Build should succeed");
+            assert_eq!(
+                rebuilt, data,
+                "key_size {key_size}, offset_bytes {offset_bytes}"
+            );
+        }
+    }
+
     #[test]
     fn test_problematic_cdn_index() {
         use std::fs::File;
